@@ -99,8 +99,9 @@ def relevant_subsets(hyps, goal):
     yield "qf-only", [h for h, sy, q in hs if not q]
 
 
-def discharge(ob, portfolio=True):
-    """Decide one obligation.  Sets status/backend/seconds/model."""
+def discharge(ob, portfolio=True, quick=False):
+    """Decide one obligation.  Sets status/backend/seconds/model.
+    quick=True (used once another obligation of the same target has already been refuted): only the fast stages."""
     neg = z3.Not(ob.goal)
     t0 = time.time()
     zv = f"z3-{z3.get_version_string()}"
@@ -117,10 +118,14 @@ def discharge(ob, portfolio=True):
     for label, sub in relevant_subsets(ob.hyps, ob.goal):
         if len(sub) == len(ob.hyps):
             continue
-        r2, _ = _try(sub, neg, 10000)
+        r2, _ = _try(sub, neg, 3000 if quick else 10000)
         if r2 == z3.unsat:
             ob.status, ob.seconds, ob.backend = "discharged", time.time() - t0, f"{zv}[{label}]"
             return ob
+    if quick:
+        ob.status, ob.seconds = "unknown", time.time() - t0
+        ob.detail = "fast stages only (another obligation of this target was already refuted)"
+        return ob
     text = None
     if portfolio:
         text = _smt2(ob.hyps, neg)
